@@ -4,6 +4,8 @@ import FxVerif.Model.C20Msg
 import FxVerif.Gen.C20Msg
 import FxVerif.Model.C20Handler
 import FxVerif.Gen.C20Handler
+import FxVerif.Model.C20Bech32
+import FxVerif.Gen.C20Bech32
 import FxVerif.Model.Util
 /-! line-protocol driver for the C20 model: `lake env lean --run Driver/C20.lean < ops.txt`
 
@@ -30,6 +32,15 @@ import FxVerif.Model.Util
   that function, the function is outside the checked certificate `blockReach` (no block hook reaches it), the transaction
   runner recovers first, and — for a vote that completes no quorum — the function is inside `ungatedReach`; otherwise
   `unknown-function | no-site-in-function | block-reachable | behind-quorum-gate | runner-does-not-recover`
+* `qtransport grpc|abci <service/method>` → `recovered | escaped`: what becomes of a panic inside a gRPC query handler, answered from the
+  regenerated facts about the cosmos-sdk fork (`grpcChain` starts with the recovery interceptor and is built inside the
+  re-registered `Handler`; `BaseApp.Query` defers its `recover()` in front of the route to `handleQueryGRPC`)
+* `qroute <known 0/1>` → `routed | err | panic`: the crosschain query server's route look-up as regenerated (`qcalls`: the caller's
+  `HasRoute` test in front of `GetRoute`, whose body panics on an unknown route)
+* `bech <hex>` → `ok <hrp hex> <address bytes hex>` or the error class of `types/bech32.DecodeAndConvert` on that byte string
+  (`too-long | too-short | invalid-char | mixed-case | separator | non-charset | checksum | incomplete-group`), computed by
+  `Model.C20Bech32.decodeAndConvert`; `bechacc <hex>` → `ok | empty | <class> | prefix | length`: `sdk.AccAddressFromBech32` under
+  the regenerated prefix and address length (`Gen.C20Bech32.addressPrefix`, `addrLen`)
 * `paddr <hex> <bech32 ok 0/1> <checksum ok 0/1>` → `bech32 | evm | err` (`fxtypes.ParseAddress`)
 * `ethaddr <hex> <checksum ok 0/1>` → `ok | empty | wrong-length | invalid-format | checksum` (`contract.ValidateEthereumAddress`)
 -/
@@ -117,6 +128,30 @@ def step (_ : Unit) (line : String) : Unit × String :=
         | .ok () => "ok" | .error .empty => "empty" | .error .wrongLength => "wrong-length"
         | .error .invalidFormat => "invalid-format" | .error .checksumMismatch => "checksum")
     | none => ((), "bad-op")
+  | ["bech", h] =>
+    match unhex h with
+    | some bs =>
+      ((), match FxVerif.Model.C20Bech32.decodeAndConvert bs with
+        | .ok (hrp, bz) => s!"ok {if hrp.isEmpty then "-" else hex hrp} {if bz.isEmpty then "-" else hex bz}"
+        | .error e => e.name)
+    | none => ((), "bad-op")
+  | ["bechacc", h] =>
+    match unhex h with
+    | some bs =>
+      ((), FxVerif.Model.C20Bech32.addressClass (FxVerif.Gen.C20Bech32.addressPrefix.toList.map Char.toNat)
+        (fun n => (n : Int) == FxVerif.Gen.C20Bech32.addrLen) bs)
+    | none => ((), "bad-op")
+  | ["qtransport", "grpc", _] =>
+    ((), if FxVerif.Gen.C20Handler.grpcChainInHandler &&
+        FxVerif.Gen.C20Handler.grpcChain.head? == some "github.com/grpc-ecosystem/go-grpc-middleware/recovery.UnaryServerInterceptor()"
+      then "recovered" else "escaped")
+  | ["qtransport", "abci", _] =>
+    ((), if FxVerif.Gen.C20Handler.abciQueryRecoversFirst && FxVerif.Gen.C20Handler.abciQueryRoutesGrpc then "recovered" else "escaped")
+  | ["qroute", known] =>
+    -- every recorded call of a panic-hosting function behind the crosschain query router carries its dominating test
+    -- (no panic-hosting callee behind a query at all: nothing to guard)
+    let guarded := FxVerif.Gen.C20Handler.qcalls.all (fun c => c.guarded && c.guard != "")
+    ((), if known == "1" then "routed" else if guarded then "err" else "panic")
   | ["hpanic", fnName, votes] =>
     match FxVerif.Gen.C20Handler.nodes.find? (·.name == fnName) with
     | none => ((), "unknown-function")
